@@ -65,18 +65,21 @@ Section Step.
     tcp_process cx s ip r = Ok (s', rep, tags) ->
     reply_ok s' rep /\
     (rx_synced S F (have_seg have c s r) irs c s' \/
-     (rx_unsynced s' /\ s_state s' = Listen /\ rep = None)) /\
-    beyond_untouched s' s.
+     (rx_unsynced s' /\ s_state s' = Listen /\ rep = None /\ c = 0)) /\
+    beyond_untouched s' s /\
+    (s_rx_fin_received s' = true -> s_rx_fin_received s = true \/ r_control r = CFin).
   Proof.
     intros Hinv Hseg H.
     assert (Hmono : forall k, have k -> have_seg have c s r k) by (intros k Hk; left; exact Hk).
     assert (Hret : forall s1 rp, same_or_acked s1 s rp ->
               reply_ok s1 rp /\ (rx_synced S F (have_seg have c s r) irs c s1 \/
-                                  (rx_unsynced s1 /\ s_state s1 = Listen /\ rp = None)) /\
-              beyond_untouched s1 s).
+                                  (rx_unsynced s1 /\ s_state s1 = Listen /\ rp = None /\ c = 0)) /\
+              beyond_untouched s1 s /\
+              (s_rx_fin_received s1 = true -> s_rx_fin_received s = true \/ r_control r = CFin)).
     { intros s1 rp Hsa. destruct (same_or_acked_synced have irs c s1 s rp Hsa Hinv) as (H1 & H2).
-      split; [exact H2|]. split; [left; eapply rx_synced_mono; eassumption|].
-      intros i _. destruct Hsa as (_ & [(_ & -> & _) | (_ & -> & _)] & _); reflexivity. }
+      split; [exact H2|]. split; [left; eapply rx_synced_mono; eassumption|]. split.
+      - intros i _. destruct Hsa as (_ & [(_ & -> & _) | (_ & -> & _)] & _); reflexivity.
+      - intros Hf. left. destruct Hsa as (_ & [(_ & _ & E & _) | (_ & _ & E & _)] & _); congruence. }
     unfold tcp_process in H. destruct (tcp_accepts s ip r); cbn [negb] in H; [|discriminate].
     apply obind_ok_inv in H. destruct H as (p1 & Hp1 & H).
     destruct p1 as [t1 []|t1 s1 rep1].
@@ -133,13 +136,14 @@ Section Step.
           destruct Hv as [Hv|Hv]; [left; eapply rxv_eq_trans; eassumption
                                   | right; eapply rxv_acked_of_eq; eassumption].
         - split; [exact I|]. pose proof (rxv_eq_trans _ _ _ He (proj1 Hf2)) as He'.
-          split; [|intros i _; destruct He' as (_ & -> & _); reflexivity].
+          split; [|split; [intros i _; destruct He' as (_ & -> & _); reflexivity
+                          | intros Hf; left; destruct He' as (_ & _ & E & _); congruence]].
           destruct Hstate as [Hcl | (Hli & Hsr)].
           + left. eapply rx_synced_mono; [exact Hmono|].
             eapply rx_synced_view; [exact He' | unfold st_ok; rewrite Hcl; exact I | exact Hinv].
-          + right. split; [|split; [exact Hli | reflexivity]].
-            destruct Hf2 as (_ & Hst2). rewrite Hst2 in Hsr. unfold st_ok in Hsto. rewrite Hsr in Hsto.
-            destruct Hsto as (Hl0 & Ha0 & Hf0 & _).
+          + destruct Hf2 as (_ & Hst2). rewrite Hst2 in Hsr. unfold st_ok in Hsto. rewrite Hsr in Hsto.
+            destruct Hsto as (Hl0 & Ha0 & Hf0 & Hc00).
+            right. split; [|split; [exact Hli | split; [reflexivity | exact Hc00]]].
             destruct He' as (E1 & E2 & E3 & E4 & E5 & E6 & E7).
             unfold rx_unsynced, misc_ok, lwb. rewrite E1, E2, E3, E6, E7, Hli.
             split; [exact Hwf|]. repeat split; try assumption. }
@@ -200,7 +204,16 @@ Section Step.
     specialize (Hps HFp Hp8).
     destruct Hps as (s8' & rep8' & t8' & Heq & P1 & P2 & P3 & P4 & P5 & P6 & P7 & P8 & P9 & P10 & P11 & P12).
     inversion Heq; subst s8' rep8' t8'; clear Heq.
-    split; [exact P8|]. split.
+    split; [exact P8|].
+    assert (Hfinfrom : s_rx_fin_received s8 = true -> s_rx_fin_received s = true \/ r_control r = CFin).
+    { intros Hf8. rewrite P2, V3 in Hf8.
+      destruct Htr as [(_ & (_ & _ & T3 & _)) | (Hc1 & _)].
+      - left. congruence.
+      - right. rewrite Hc1 in Hquash. exact (proj1 Hquash). }
+    cut ((rx_synced S F (have_seg have c s r) irs c s8 \/
+          rx_unsynced s8 /\ s_state s8 = Listen /\ rep8 = None /\ c = 0) /\ beyond_untouched s8 s).
+    { intros (X1 & X2). split; [exact X1|]. split; [exact X2 | exact Hfinfrom]. }
+    split.
     2:{ intros i Hi.
         assert (HadvW : adv_width s = W).
         { unfold adv_width. rewrite Hws, Hwe. rewrite seq_sdiff_norm; unfold p30 in *; lia. }
